@@ -313,6 +313,41 @@ ElemElement::executeChildElement(
     return !(element->getXSLToken() == StylesheetConstructionContext::ELEMNAME_ATTRIBUTE
              && executionContext.getSkipElementAttributes() == true);
 }
+
+
+
+const ElemTemplateElement*
+ElemElement::getFirstChildElemToExecute(StylesheetExecutionContext&     executionContext) const
+{
+    // When the name is illegal, no element is created, startElement()
+    // has not prepared anything for the attribute sets, and they
+    // are skipped, like the xsl:attribute children...
+    if (executionContext.getSkipElementAttributes() == true)
+    {
+        return ElemTemplateElement::getFirstChildElemToExecute(executionContext);
+    }
+    else
+    {
+        return ElemUse::getFirstChildElemToExecute(executionContext);
+    }
+}
+
+
+
+const ElemTemplateElement*
+ElemElement::getNextChildElemToExecute(
+            StylesheetExecutionContext&     executionContext,
+            const ElemTemplateElement*      currentElem) const
+{
+    if (executionContext.getSkipElementAttributes() == true)
+    {
+        return ElemTemplateElement::getNextChildElemToExecute(executionContext, currentElem);
+    }
+    else
+    {
+        return ElemUse::getNextChildElemToExecute(executionContext, currentElem);
+    }
+}
 #endif
 
 
